@@ -1159,9 +1159,36 @@ def integration_kkt(tier="quick", seed=0, only=None):
     from pygradflow.integration.integration_solver import IntegrationSolver
     from pygradflow.status import SolverStatus
 
-    S = scenarios()
+    S = dict(scenarios())
+    S.pop("qp_big_multipliers", None)
+    import scipy.sparse as _sp
+    from pygradflow.problem import Problem as _Problem
+
+    class PinnedWrongSign(_Problem):
+        """x in [0,1] starts ON its lower bound; the objective wants to leave it (grad f = -1e-5), the nearly
+        satisfied equality row 100 x + 5e-7 = 0 makes the PENALISED gradient point the other way for rho >= 1"""
+
+        def __init__(self):
+            super().__init__(np.array([0.0]), np.array([1.0]), cons_lb=np.array([0.0]), cons_ub=np.array([0.0]))
+
+        def obj(self, x):
+            return -1e-5 * x[0]
+
+        def obj_grad(self, x):
+            return np.array([-1e-5])
+
+        def cons(self, x):
+            return np.array([100 * x[0] + 5e-7])
+
+        def cons_jac(self, x):
+            return _sp.coo_matrix(np.array([[100.0]]))
+
+        def lag_hess(self, x, y):
+            return _sp.coo_matrix((1, 1))
+
+    S["pinned_at_bound_wrong_sign"] = (lambda fmt=None: PinnedWrongSign(), np.array([0.0]), np.array([0.0]))
     failures, cases, optimal, crashed = [], 0, 0, 0
-    variants = [dict(), dict(opt_tol=1e-4)] if tier == "quick" else [dict(), dict(opt_tol=1e-4), dict(opt_tol=1e-8), dict(rho=10.0)]
+    variants = [dict(), dict(opt_tol=1e-4), dict(rho=1.0)] if tier == "quick" else [dict(), dict(opt_tol=1e-4), dict(rho=1.0), dict(opt_tol=1e-8), dict(rho=10.0)]
     for name, (mk, x0, y0) in S.items():
         for vi, kw in enumerate(variants):
             inp = dict(scenario=name, variant=vi)
@@ -1178,7 +1205,7 @@ def integration_kkt(tier="quick", seed=0, only=None):
             if res.status == SolverStatus.Optimal:
                 optimal += 1
                 for lab, data in kkt_failures(problem, res, params):
-                    failures.append(dict(label="C01:integration_solver:optimal_violates_" + lab, input=inp, observed=repr(data)[:200]))
+                    failures.append(dict(label=f"C01:integration_solver:{name}:variant{vi}:optimal_violates_" + lab, input=inp, observed=repr(data)[:200]))
     seen, uniq = set(), []
     for f in failures:
         if f["label"] not in seen:
